@@ -46,6 +46,12 @@ impl<'a> Model<'a> {
         cell: CellReferenceIndex,
         op: &dyn Fn(f64, f64) -> Result<f64, Error>,
     ) -> CalcResult {
+        // An overflowing or undefined operation is an error wherever it happens,
+        // not only when its result ends up being the value of the cell
+        let op = &|f1: f64, f2: f64| match op(f1, f2) {
+            Ok(x) if !x.is_finite() => Err(Error::NUM),
+            other => other,
+        };
         let l = match self.get_number_or_array(left, cell) {
             Ok(f) => f,
             Err(s) => {
@@ -71,6 +77,11 @@ impl<'a> Model<'a> {
                 },
                 Err(Error::VALUE) => CalcResult::Error {
                     error: Error::VALUE,
+                    origin: cell,
+                    message: "Invalid number".to_string(),
+                },
+                Err(Error::NUM) => CalcResult::Error {
+                    error: Error::NUM,
                     origin: cell,
                     message: "Invalid number".to_string(),
                 },
